@@ -74,6 +74,28 @@ def _abspar(out):
     return n, skipped
 
 
+def _absprom(out):
+    """reachability check of the event-level promotion model (Abs/Promotion.v) on every real trace"""
+    import os
+    from .. import core
+    n = skipped = 0
+    if not os.path.exists(core.DRIVER):
+        return 0, 0
+    for r in out['results']:
+        if not r['ok']:
+            continue
+        rc, o = core.run([core.DRIVER, 'absprom', r['trace_path']], timeout=600)
+        n += 1
+        if 'ABSSKIP' in o:
+            skipped += 1
+        for l in o.split('\n'):
+            if l.startswith('DIFF'):
+                out['diffs'].append('%s [promotion model]: %s' % (r['name'], l[:500]))
+        if rc not in (0, 1):
+            out['diffs'].append('%s: promotion-model check failed: %s' % (r['name'], o[-200:]))
+    return n, skipped
+
+
 def _tier(ctx, quick, thorough):
     return quick if ctx['tier'] == 'quick' else thorough
 
@@ -204,11 +226,30 @@ def run_c04(ctx):
 
 
 # ---- C05 -------------------------------------------------------------------------------------
+def _c05_oracle(tr, origin, meta):
+    """c05_parents, except that for a causal follow-up whose first link had NOT reached the second
+    writer when it issued its own operation (a genuine conflict then) nothing is demanded of that child"""
+    fs = oracles.c05_parents(tr, origin)
+    for (c, p1, P) in (meta or {}).get('causal', []):
+        seen = False
+        received = False
+        for ev in tr['events']:
+            if ev[0] == 'frame' and ev[1].peer == P:
+                for frm, m in ev[1].rcv:
+                    if m[0] == 'parented' and m[1] == c and m[2] == p1:
+                        received = True
+            if ev[0] == 'op' and ev[1] == P and ev[2][0] == 'parent' and ev[2][1] == c and received:
+                seen = True
+        if not seen:
+            fs = [f for f in fs if not (f['signature'] in ('parents-differ', 'child-not-listed-once') and ('uuid %s ' % c) in f['what'])]
+    return fs
+
+
 def run_c05(ctx):
     n = _tier(ctx, 24, 300)
     jobs, metas = _jobs_from(scen.parents_clean, 'C05', ctx['seed'], n)
     jobs = pc.corpus_jobs(['S19_*.scn', 'S25_*.scn']) + jobs
-    out = pc.run_scenarios('C05', ctx, jobs, [oracles.c05_parents, oracles.c01_entities, oracles.c09_traffic], nontrivial=pc.received_kinds)
+    out = pc.run_scenarios('C05', ctx, jobs, [_with_meta(metas, _c05_oracle), oracles.c01_entities, oracles.c09_traffic], nontrivial=pc.received_kinds)
     nrep, nskip = _abspar(out)
     out['opstats']['parent_model_replays'] = nrep
     out['opstats']['parent_model_replays_outside_premises'] = nskip
@@ -253,17 +294,22 @@ def _c07_oracle(tr, origin):
             if p not in hosts and f.net.get('status') != 'connected':
                 out.append(dict(signature='peer-not-client-of-new-host', origin=origin, what='peer %d: RenetClient is %s after the promotion' % (p, f.net.get('status'))))
         out += oracles.c01_entities(tr, origin) + oracles.c02_values(tr, origin)
+    if promoted and any(ev[0] == 'notquiescent' for ev in tr['events']):
+        out.append(dict(signature='not-quiescent', origin=origin, what='the session never settles after the promotion (a peer stays in a connecting state / traffic never stops)'))
     return out
 
 
 def run_c07(ctx):
     n = _tier(ctx, 10, 120)
-    jobs = pc.generated_jobs('C07', ctx['seed'], n, ['promotion'], npeers=2)
+    jobs = pc.corpus_jobs(['S8_*.scn', 'S9_*.scn']) + pc.generated_jobs('C07', ctx['seed'], n, ['promotion'], npeers=2)
     jobs += pc.generated_jobs('C07m', ctx['seed'], max(2, n // 5), ['promotion'], npeers=3)
     # with more than one client the session enters the known-finding state S8 (both chains active on
     # the old host): the model's uuid convention (uuid := entity id) is not faithful there
     out = pc.run_scenarios('C07', ctx, jobs, [_c07_oracle], nontrivial=pc.received_kinds)
     out['diffs'] = [d for d in out['diffs'] if not d.startswith('C07m_')]
+    nrep, nskip = _absprom(out)
+    out['opstats']['promotion_model_reachability_checks'] = nrep
+    out['opstats']['promotion_model_checks_outside_premises'] = nskip
     return pc.make_result('C07', ctx, out, 'frames of promotion histories (prior content, promotion, writes resumed on both sides); one client (the case that works) and two clients (known finding S8); non-trivial = distinct (scenario, receiver, kind, key) received',
                           assumptions=['UDP bind conflicts and netcode time-outs are outside the model (partial)'])
 
